@@ -14,6 +14,7 @@ import (
 	"strconv"
 	"strings"
 	"sync"
+	"sync/atomic"
 	"time"
 
 	"github.com/pascaldekloe/mqtt"
@@ -158,11 +159,24 @@ type World struct {
 // Violation is the panic value used to leave a case which failed an oracle.
 type Violation struct{ Msg string }
 
+// failedOnce is set by the first violation in this process. The executions
+// which follow are the library's shrinking attempts: they judge a hang after a
+// much shorter quiet period, so that minimising a wedged case stays affordable.
+var failedOnce atomic.Bool
+
+func (w *World) hangQuiet() time.Duration {
+	if failedOnce.Load() && w.HangQuiet > 1500*time.Millisecond {
+		return 1500 * time.Millisecond
+	}
+	return w.HangQuiet
+}
+
 // Failf reports a violation of the property under test: it prints the marker
 // line the driver looks for, dumps the tail of the event log and fails the case.
 func (w *World) Failf(format string, args ...interface{}) {
 	msg := fmt.Sprintf(format, args...)
 	w.failed = true
+	failedOnce.Store(true)
 	w.T.Fatalf("VERIF-VIOLATION property=%s: %s\n--- script ---\n%s\n--- event log (tail) ---\n%s",
 		w.Prop, msg, strings.Join(w.Script, "\n"), w.DumpTail(120))
 }
@@ -282,7 +296,7 @@ func (w *World) Await(pred func() bool) error {
 		if last.Before(start) {
 			last = start
 		}
-		if now.Sub(last) > w.HangQuiet {
+		if now.Sub(last) > w.hangQuiet() {
 			return ErrHang
 		}
 		if now.Sub(start) > 10*time.Minute {
@@ -306,7 +320,7 @@ func (w *World) MustAwait(what string, pred func() bool) {
 	case nil:
 	case ErrHang:
 		w.hangDump(what)
-		w.Failf("hang: %s did not happen; no event for %v", what, w.HangQuiet)
+		w.Failf("hang: %s did not happen; no event for %v", what, w.hangQuiet())
 	default:
 		w.T.Fatalf("VERIF-INFRA inconclusive wait for %s: %v", what, err)
 	}
@@ -625,6 +639,9 @@ func (w *World) Shutdown(budget time.Duration) (clean bool) {
 		return true
 	}
 	w.shut = true
+	if failedOnce.Load() && budget > time.Second {
+		budget = time.Second
+	}
 	w.mu.Lock()
 	w.closedWorld = true // gates and parks open for good
 	w.cond.Broadcast()
